@@ -125,6 +125,21 @@ def one_case(cid, rng, scheme, s, genic, cov, thorough):
                 pm = [int(str(x)[1:]) for x in obj.taxa]       # taxa are named p<i>
                 c["inplace"] = how
             M = np.asarray(obj.mat, dtype=float)
+            if not cov and scheme in ("2w", "3w") and rng.random() < 0.5:
+                # the variances are read through the EXPORTED table (to_pandas): the row naming a cross by its parents' names holds
+                # the variance of that cross, whatever happened to the matrix in place before
+                try:
+                    df = obj.to_pandas()
+                    cols = ["recurrent", "female", "male"] if scheme == "3w" else ["female", "male"]
+                    names = [str(x) for x in obj.taxa]
+                    # (from_algmod does not hand the model's trait names on; the table then numbers the traits in order)
+                    tn = [str(x) for x in obj.trait] if obj.trait is not None else list(dict.fromkeys(str(x) for x in df["trait"]))
+                    M2 = np.full(M.shape, np.nan)
+                    for _, r_ in df.iterrows():
+                        M2[tuple(names.index(str(r_[cc])) for cc in cols) + (tn.index(str(r_["trait"])),)] = float(r_["variance"])
+                    M = M2; c["via_table"] = True
+                except (AttributeError, NotImplementedError):
+                    pass
             ok = True
             ents = []
             tuples = list(itertools.product(range(n), repeat=K))
@@ -330,7 +345,7 @@ def run(ctx):
                 for _ in range(2 if thorough else 1):
                     allc.append(dihybrid_case(len(allc) + 1, rng, s, genic, cov))
         verd = cases.validate(ctx, "ProgenyVar_Trace", "ProgenyVar_Trace.cfg",
-                              [{k: v for k, v in c.items() if k not in ("cls", "mem", "cov", "labels", "inplace")} for c in allc],
+                              [{k: v for k, v in c.items() if k not in ("cls", "mem", "cov", "labels", "inplace", "via_table")} for c in allc],
                               "ProgenyVar_Trace", chunk=3, procs=14, env={"TABLE_FILE": tf}, timeout=3000)
     finally:
         shutil.rmtree(tmp, ignore_errors=True)
